@@ -211,3 +211,40 @@ func enumerateStops(thorough bool, each func(s Script, label string) bool) {
 		}
 	}
 }
+
+// exhaustiveAddRemove : v1 plain, three priorities, a small H (including values that leave
+// a priority without a strategic share, which the v1 constructor accepts): every sequence of
+// a fixed depth over {write to the highest / the lowest, drain, remove the middle / the
+// lowest, add the middle again, release the oldest item of the highest}.
+func exhaustiveAddRemove(thorough bool, each func(s Script, label string) bool) {
+	depth := 3
+	if thorough {
+		depth = 5
+	}
+	me, n := shard()
+	count := 0
+	for _, div := range []string{"fair", "rate"} {
+		for _, ps := range [][3]uint{{5, 4, 1}, {3, 2, 1}} {
+			for _, h := range []uint{1, 2, 3, 6} {
+				hi, mid, lo := ps[0], ps[1], ps[2]
+				alphabet := []Op{
+					{K: "W", P: hi, N: 1}, {K: "W", P: lo, N: 2}, {K: "D"},
+					{K: "X", P: mid}, {K: "X", P: lo}, {K: "A", P: mid, N: 1, M: 1}, {K: "FP", P: hi},
+				}
+				ok := sequences(alphabet, depth, func(seq []Op) bool {
+					count++
+					if count%n != me {
+						return true
+					}
+					s := Script{Ver: 1, Div: div, H: h, OutCap: 1, FbCap: 1, Epilogue: "normal",
+						Ins: []In{{P: hi, Cap: 0}, {P: mid, Cap: 0}, {P: lo, Cap: 2}},
+						Ops: append(append([]Op(nil), seq...), Op{K: "D"})}
+					return each(s, "add/remove-enumeration")
+				})
+				if !ok {
+					return
+				}
+			}
+		}
+	}
+}
